@@ -76,8 +76,9 @@ Ones(k) == [i \in 1..k |-> 1023]
 LongMax == Ones(6) \o <<7>>                 \* 2^63 - 1  (LONG_MAX = PTRDIFF_MAX on LP64)
 TwoTo63 == ShL(<<8>>, 6)                    \* magnitude of LONG_MIN
 TwoTo64 == ShL(<<16>>, 6)                   \* SIZE_MAX + 1
-PtrdiffMax == LongMax                       \* MI_MAX_ALLOC_SIZE
-PtrdiffMaxKiB == Ones(5) \o <<7>>           \* MI_MAX_ALLOC_SIZE / MI_KiB = 2^53 - 1
+\* MI_MAX_ALLOC_SIZE (types.h, 64 bit) = MI_SEGMENT_SLICE_SIZE * (UINT32_MAX-1) = 2^16 * (2^32 - 2) = 2^48 - 2^17
+MaxAllocKiB == <<896, 1023, 1023, 255>>     \* MI_MAX_ALLOC_SIZE / MI_KiB = 2^38 - 128
+MaxAlloc == ShL(MaxAllocKiB, 1)
 
 \* signed values (C long)
 Z(n) == IF n < 0 THEN [neg |-> TRUE, mag |-> NatOfInt(-n)] ELSE [neg |-> FALSE, mag |-> NatOfInt(n)]
@@ -198,7 +199,7 @@ SizeConv(s, r) ==
       e1 == IF mul >= 0 THEN r.end + 1 ELSE r.end
       ib == At(s, e1) = 73 /\ At(s, e1 + 1) = 66                                               \* "IB"
       e2 == IF ib THEN e1 + 2 ELSE IF At(s, e1) = 66 THEN e1 + 1 ELSE e1                        \* or "B"
-      size2 == IF overflow \/ Cmp(size1, PtrdiffMax) > 0 THEN PtrdiffMaxKiB ELSE size1
+      size2 == IF overflow \/ Cmp(size1, MaxAlloc) > 0 THEN MaxAllocKiB ELSE size1      \* (a KiB count compared with a byte count: as upstream)
       size3 == IF Cmp(size2, LongMax) > 0 THEN LongMax ELSE size2
   IN [val |-> ZNat(size3), end |-> e2, bareib |-> ib /\ mul < 0]
 
@@ -297,7 +298,10 @@ mcVars == <<tab, env, nops, last, touched>>
 MCSpec == MCInit /\ [][MCNext]_mcVars
 
 \* ---- what the bounded model is checked for
-EnvParse(o) == LET raw == EnvValue(env, o) IN IF raw = NoVal THEN [kind |-> "absent", val |-> Z(0)] ELSE Parse(OptTable[o].kib, raw)
+\* how the grammar classifies the environment value of option o (evaluated once per explored environment)
+EnvParseIn(e, o) == LET raw == EnvValue(e, o) IN IF raw = NoVal THEN [kind |-> "absent", val |-> Z(0)] ELSE Parse(OptTable[o].kib, raw)
+MCParsed == [k \in MCEnvIds |-> [o \in Opts |-> EnvParseIn(MCEnvs[k], o)]]
+EnvParse(o) == MCParsed[CHOOSE k \in MCEnvIds : MCEnvs[k] = env][o]
 
 \* Get after Set returns the set value (until the next write)
 SetGet == last.op = "set" => /\ tab[last.o].val = last.v /\ tab[last.o].init = "INITIALIZED"
@@ -332,7 +336,9 @@ BoolFormsStr == {"1", "0", "true", "TRUE", "True", "tRuE", "yes", "YES", "Yes", 
                  "false", "FALSE", "False", "fALSe", "no", "NO", "No", "nO", "off", "OFF", "Off", "oFF", ""}
 MagnitudeStr == {"0", "00", "1", "2", "7", "9", "10", "42", "99", "100", "007", "512", "1023", "1024", "1025", "2047", "2048", "4096", "65536",
                  "1048575", "1048576", "1048577", "2147483647", "2147483648", "4294967295", "4294967296",
-                 "8796093022207", "8796093022208",                                  \* 2^43 -+ : x T crosses PTRDIFF_MAX/1024 when multiplied
+                 "281474976579584", "281474976579585", "274877906816", "274877906817",  \* MI_MAX_ALLOC_SIZE, /1024 : clamp boundary for K and M
+                 "268435455", "268435456", "262143", "262144",                      \* ... for G and T
+                 "8796093022207", "8796093022208",                                  \* 2^43 -+
                  "9007199254740991", "9007199254740992", "9007199254740993",        \* 2^53 -+
                  "17179869183", "17179869184",                                      \* 2^34 -+ : x T = 2^64 overflow boundary
                  "18014398509481984", "18014398509481983",                          \* 2^54 -+ : x K wraps in get_size; x M overflows
